@@ -43,6 +43,7 @@ GROUP_PROPS = {
     'fault': {'C09'},
     'serve': {'C10'},
     'reg': {'C14'},
+    'letgo': {'C14', 'C07'},    # the server's side of a stream whose caller has gone is told (reset / cancellation)
     'robust': {'C12', 'C01'},
 }
 
@@ -282,20 +283,20 @@ IMPL_INVS = ('UniqueIds EofOnlyOnOk NoCancelAfterSuccess ResetNotBeforeTrailer R
 
 
 def impl(name, unaries=(), streams=(), workers=1, maxc=1, maxs=1, without=None, cancel=False, readfail=False,
-         stop=False, early=True, expect=None, tiers=None, tlc_workers=8, advc=0, advs=0, sendfail=False):
+         stop=False, early=True, expect=None, tiers=None, tlc_workers=8, advc=0, advs=0, sendfail=False, hwaits=False):
     """a configuration of GoatImpl.tla; `without` names a repaired defect to re-open (the model must then fail)"""
     fixes = [f for f in ALL_FIXES if f != without]
     sset = lambda xs: '{' + ', '.join('"%s"' % x for x in xs) + '}'
     b = lambda v: 'TRUE' if v else 'FALSE'
     cfg = ('SPECIFICATION Spec\nCONSTANTS\n  Unaries = %s\n  Streams = %s\n  NWorkers = %d\n  MaxC = %d\n  MaxS = %d\n'
-           '  Fixes = %s\n  EnvCancel = %s\n  EnvReadFail = %s\n  EnvStop = %s\n  EnvSendFail = %s\n  EarlyReturn = %s\n'
+           '  Fixes = %s\n  EnvCancel = %s\n  EnvReadFail = %s\n  EnvStop = %s\n  EnvSendFail = %s\n  EarlyReturn = %s\n  HandlerWaits = %s\n'
            '  AdvClient = %d\n  AdvServer = %d\n  AdvIds = {1}\nINVARIANTS %s\n'
-           % (sset(unaries), sset(streams), workers, maxc, maxs, sset(fixes), b(cancel), b(readfail), b(stop), b(sendfail), b(early),
+           % (sset(unaries), sset(streams), workers, maxc, maxs, sset(fixes), b(cancel), b(readfail), b(stop), b(sendfail), b(early), b(hwaits),
               advc, advs, IMPL_INVS))
     d = dict(name='GoatImpl ' + name, spec='GoatImpl.tla', cfg=cfg, workers=tlc_workers, heap='12g', timeout=3000,
              constants='unary calls %s, streams %s, %d worker(s), <=%d client / <=%d handler messages per stream, '
-                       'environment: cancel=%s read-failure=%s stop=%s refused-send=%s early-return=%s adversarial envelopes to server=%d to client=%d; %s; deadlock checking on'
-                       % (sset(unaries), sset(streams), workers, maxc, maxs, b(cancel), b(readfail), b(stop), b(sendfail), b(early), advc, advs,
+                       'environment: cancel=%s read-failure=%s stop=%s refused-send=%s early-return=%s handler-may-wait-for-cancel=%s adversarial envelopes to server=%d to client=%d; %s; deadlock checking on'
+                       % (sset(unaries), sset(streams), workers, maxc, maxs, b(cancel), b(readfail), b(stop), b(sendfail), b(early), b(hwaits), advc, advs,
                           'all repaired defects present' if not without else 'defect %s re-opened' % without))
     if expect:
         d['expect_violation'] = expect
@@ -316,6 +317,9 @@ M_U2STOP = impl('U2stop (two unary calls, one worker, Stop anywhere)', unaries=[
 M_S1SF = impl('S1sf (one stream, its Send may be refused by the transport, caller may cancel)', streams=['s1'], maxc=1, maxs=1, cancel=True, sendfail=True)
 M_S1SF2 = impl('S1sf2 (one stream, two client messages, a Send may be refused by the transport, caller may cancel)', streams=['s1'], maxc=2, maxs=1, cancel=True, sendfail=True, tiers=['thorough'])
 B_D22 = impl('Bug_D22', streams=['s1'], maxc=1, maxs=0, sendfail=True, early=False, without='D22', expect='Deadlock reached', tlc_workers=2)
+# D23 is a known finding (not repaired): the design model exhibits it as a deadlock; with one envelope fewer it does not
+K_D23 = impl('Known_D23 (handler waits for the cancellation its caller issued; 2 envelopes queued ahead of the reset)', streams=['s1'], maxc=1, maxs=0, cancel=True, early=False, hwaits=True, expect='Deadlock reached', tlc_workers=4)
+M_HW0 = impl('S1hw (handler may wait for the cancellation its caller issued; at most one envelope queued ahead of the reset)', streams=['s1'], maxc=0, maxs=1, cancel=True, hwaits=True)
 B_D1 = impl('Bug_D1', streams=['s1'], early=False, without='D1', expect='Invariant NoCancelAfterSuccess is violated', tlc_workers=2)
 B_D4 = impl('Bug_D4', streams=['s1'], maxc=2, maxs=0, without='D4', expect='Invariant ResetNotBeforeTrailerPending is violated', tlc_workers=2)
 B_D5 = impl('Bug_D5', unaries=['u1'], readfail=True, early=False, without='D5', expect='Deadlock reached', tlc_workers=2)
@@ -331,7 +335,7 @@ M_ADVS3S = impl('AdvS3s (adversarial server: any 3 envelopes to a stream whose c
 B_ADVS_D7C = impl('Bug_D7c under an adversarial server', unaries=['u1'], maxc=0, maxs=0, advs=3, without='D7c', expect='Deadlock reached', tlc_workers=4)
 
 for _p, _ms in {'C12': [M_ADVC3, B_ADVC_D7S, M_ADVC4], 'C13': [M_ADVS3U, B_ADVS_D7C, M_ADVS3S], 'C01': [M_U2], 'C02': [M_S1, B_D1, M_S1M2], 'C03': [M_S1, B_D4], 'C05': [M_U2, M_S1], 'C06': [M_S1, B_D4],
-                'C07': [M_S1, B_D7C, M_S1M2], 'C09': [M_U2RF, B_D5, M_S1RF], 'C10': [M_S1STOP, M_U2STOP, B_D6],
+                'C07': [M_S1, B_D7C, M_HW0, K_D23, M_S1M2], 'C09': [M_U2RF, B_D5, M_S1RF], 'C10': [M_S1STOP, M_U2STOP, B_D6],
                 'C11': [M_S1, B_D7S, B_D7C, M_S1U1], 'C14': [M_S1, M_U2, M_S1SF, B_D22, M_S1SF2]}.items():
     PROPS[_p]['models'] = list(PROPS[_p].get('models', [])) + _ms
 
